@@ -64,44 +64,44 @@ type vlfCmd struct {
 }
 
 type vlfSender struct {
-	k      int
-	obj    *proxyStreamSender
-	srv    *vlfSrv
-	gid    int64
-	done   chan struct{}
-	pc     string
-	at     time.Time
-	hasAt  bool
-	sd     channel.ShutdownOnce
-	paniced string
-}
-type vlfReceiver struct {
 	k       int
-	obj     *proxyStreamReceiver
-	cli     *vlfCliStream
+	obj     *proxyStreamSender
+	srv     *vlfSrv
 	gid     int64
 	done    chan struct{}
 	pc      string
+	at      time.Time
+	hasAt   bool
 	sd      channel.ShutdownOnce
+	paniced string
+}
+type vlfReceiver struct {
+	k        int
+	obj      *proxyStreamReceiver
+	cli      *vlfCliStream
+	gid      int64
+	done     chan struct{}
+	pc       string
+	sd       channel.ShutdownOnce
 	openGate chan struct{}
-	atOpen  bool
+	atOpen   bool
 }
 
 type vlfHarness struct {
-	mu     sync.Mutex
-	enc    *json.Encoder
-	seq    int
-	run    int
-	sm     *shardManagerImpl
-	gates  map[string]*vlfGate // key: point + "@" + gid
-	armed  map[int64]bool      // goroutines whose hook points block
-	snd    map[int]*vlfSender
-	rcv    map[int]*vlfReceiver
-	ngid   int64
-	ndone  chan struct{}
-	npc    string
-	crash  string
-	wait   time.Duration
+	mu    sync.Mutex
+	enc   *json.Encoder
+	seq   int
+	run   int
+	sm    *shardManagerImpl
+	gates map[string]*vlfGate // key: point + "@" + gid
+	armed map[int64]bool      // goroutines whose hook points block
+	snd   map[int]*vlfSender
+	rcv   map[int]*vlfReceiver
+	ngid  int64
+	ndone chan struct{}
+	npc   string
+	crash string
+	wait  time.Duration
 }
 
 func (h *vlfHarness) emit(ev map[string]interface{}) {
@@ -171,11 +171,11 @@ func (h *vlfHarness) release(point string, gid int64) bool {
 // ---- fakes
 type vlfSrv struct {
 	grpc.ServerStream
-	h       *vlfHarness
-	ctx     context.Context
-	broken  chan struct{}
-	once    sync.Once
-	inRecv  bool
+	h      *vlfHarness
+	ctx    context.Context
+	broken chan struct{}
+	once   sync.Once
+	inRecv bool
 }
 
 func (s *vlfSrv) Context() context.Context { return s.ctx }
